@@ -1,6 +1,7 @@
 /-
   TrC10 — the CURRENT SOURCE of `CSMatrix.Dim`, `CSMatrix.NNZ`, `CSMatrix.SetMinorDim`, `CSMatrix.Transpose` (translated by
   tools/go2lean on every run) computes exactly the model's `CSM.dim`, `CSM.nnz`, `CSM.setMinorDim`.
+  `NewCSRMatrix`, `RowVector`, `SetRowVector` likewise.
   (`SetMajorDim` reslices within the capacity of the backing array, which the translation's list
   semantics does not carry: it stays hand-modelled with the `hidden` rows, tied by correspondence.)
   Property theorems only.
@@ -8,6 +9,7 @@
 import EtVerif.Proofs.TrMatSmall
 import EtVerif.Proofs.TrSetDim
 import EtVerif.Proofs.TrTranspose
+import EtVerif.Proofs.TrNewCSR
 
 namespace EtVerif.TrC10
 open EtVerif EtVerif.GoSem EtVerif.Gen EtVerif.Tr Scalar
@@ -40,6 +42,26 @@ theorem setMinorDim (m : CSM α) (d : Nat) (hs : ∀ r ∈ m.rows, sortedStrict 
 theorem transpose_refines (m : CSM α) (hc : m.colsInRange = true) :
     (Gen.CSMatrix_Transpose (toGM m)).map (fun r => r.2) = .ok (toGM m.transpose, none) :=
   CSMatrix_Transpose_refines m hc
+
+/-- matrix.go `NewCSRMatrix` = the model's `CSM.newCSR`: bucket every kept coordinate into its row in input order
+    (zeros dropped unless `includeZero`), sort every row by column (`sort.Sort` = any sorted permutation: the
+    model's insertion sort; the in-place sort through the range variable is carried by a write-through view), for
+    coordinate lists whose kept entries have a row index `< rows` (otherwise Go panics on `entries2[e.Row]`). -/
+theorem newCSR_refines (rows cols : Nat) (es : List (Coo α)) (incl : Bool)
+    (hr : cooRowsInRange rows es incl = true) :
+    (Gen.NewCSRMatrix (rows : Int) (cols : Int) (es.map toGCoo) incl).map (fun r => r.2) =
+      .ok (toGM (CSM.newCSR rows cols es incl)) :=
+  NewCSRMatrix_refines rows cols es incl hr
+
+/-- matrix.go `CSRMatrix.RowVector` / `SetRowVector` (in-range row). -/
+theorem rowVector_refines (m : CSM α) (i : Nat) (h : i < m.rows.length) :
+    (Gen.CSRMatrix_RowVector (toGM m) (i : Int)).map (fun r => r.2) = .ok (toGV (m.rowVec i)) :=
+  CSRMatrix_RowVector_refines m i h
+
+theorem setRowVector_refines (m : CSM α) (i : Nat) (v : Vec α) (h : i < m.rows.length) :
+    (Gen.CSRMatrix_SetRowVector (toGM m) (i : Int) (toGV v)).map (fun r => r.1.m) =
+      .ok (toGM { m with rows := m.rows.set i v.entries }) :=
+  CSRMatrix_SetRowVector_refines m i v h
 
 /-- non-vacuity. -/
 example : ∀ r ∈ ([[⟨0, 1⟩, ⟨2, 3⟩], []] : List (List (Entry Rat))), sortedStrict r = true := by decide
